@@ -155,6 +155,73 @@ impl Ctx {
     }
 }
 
+impl Ctx {
+    /// the lookup side: which key a signature / a PKESK names. `a` signs with every choice of issuer subpackets
+    /// (none / its own / b's / both, key id and fingerprint, hashed or unhashed area); the signature is valid under
+    /// a's key, so verification under a's key succeeds exactly when the signature is matched to that key.
+    fn lookup(&mut self, a: &SignedSecretKey, b: &SignedSecretKey, cls: &str) {
+        use pgp::packet::{SignatureConfig, SignatureType, Subpacket, SubpacketData};
+        use pgp::types::{KeyDetails as KD, Timestamp};
+        let pw = Password::empty();
+        let data = b"lookup".to_vec();
+        let apub = a.primary_key.public_key();
+        let (akid, afp) = (a.primary_key.legacy_key_id(), a.primary_key.fingerprint());
+        let (bkid, bfp) = (b.primary_key.legacy_key_id(), b.primary_key.fingerprint());
+        for kc in 0..4u8 { for fc in 0..4u8 { for unhashed in [false, true] {
+            let kids: Vec<pgp::types::KeyId> = match kc { 0 => vec![], 1 => vec![akid], 2 => vec![bkid], _ => vec![bkid, akid] };
+            let fps: Vec<pgp::types::Fingerprint> = match fc { 0 => vec![], 1 => vec![afp.clone()], 2 => vec![bfp.clone()], _ => vec![bfp.clone(), afp.clone()] };
+            let r = guarded(|| -> Option<bool> {
+                let mut c = SignatureConfig::from_key(Rng::new(7), &a.primary_key, SignatureType::Binary).ok()?;
+                let mut issuer: Vec<Subpacket> = Vec::new();
+                for k in &kids { issuer.push(Subpacket::regular(SubpacketData::IssuerKeyId(*k)).ok()?); }
+                for f in &fps { issuer.push(Subpacket::regular(SubpacketData::IssuerFingerprint(f.clone())).ok()?); }
+                c.hashed_subpackets = vec![Subpacket::regular(SubpacketData::SignatureCreationTime(Timestamp::from_secs(1_700_000_000))).ok()?];
+                if unhashed { c.unhashed_subpackets = issuer; } else { c.hashed_subpackets.extend(issuer); }
+                let sig = c.sign(&a.primary_key, &pw, &data[..]).ok()?;
+                // through the wire, as a verifier would get it
+                let mut w = Vec::new(); pgp::packet::Packet::from(sig).to_writer(&mut w).ok()?;
+                let sig = match PacketParser::new(&w[..]).next()?.ok()? { Packet::Signature(s) => s, _ => return None };
+                Some(sig.verify(&apub, &data[..]).is_ok())
+            });
+            let names_own = kc == 1 || kc == 3 || fc == 1 || fc == 3;
+            let names_nobody = kc == 0 && fc == 0;
+            let (imp, pred) = match r { Ok(Some(ok)) => ((ok as u8).to_string(), Some(if names_own || names_nobody { ok } else { !ok })), Ok(None) => ("n/a".to_string(), None), Err(p) => (p, Some(false)) };
+            let l = |v: Vec<String>| if v.is_empty() { "_".to_string() } else { v.join(",") };
+            if imp == "n/a" { self.out.case("", &[], &["lookup".into(), cls.into(), kc.to_string(), fc.to_string()], &imp, Some(true), &format!("{cls}-lookup-not-signable")); continue; }
+            self.out.case("sigmatch", &[l(kids.iter().map(|k| hx(k.as_ref())).collect()), l(fps.iter().map(|f| hx(f.as_bytes())).collect()), hx(akid.as_ref()), hx(afp.as_bytes())],
+                &["lookup".into(), cls.into(), kc.to_string(), fc.to_string(), (unhashed as u8).to_string()], &imp, pred,
+                &format!("{cls}-lookup-{}{}", if names_nobody { "nobody" } else if names_own { "own" } else { "foreign" }, if unhashed { "-unhashed" } else { "" }));
+        } } }
+        // PKESK targets
+        use pgp::packet::PublicKeyEncryptedSessionKey as P;
+        let Some(sub) = a.secret_subkeys.iter().find(|s| s.key.algorithm().can_encrypt()) else { return; };
+        let subpub = sub.key.public_key();
+        let other = &b.primary_key;
+        for (v1, anon) in [(true, false), (true, true), (false, false), (false, true)] {
+            let esk = guarded(|| -> Option<P> {
+                let mut mb = if v1 { MessageBuilder::from_bytes("", b"x".to_vec()).seipd_v1(Rng::new(4), SymmetricKeyAlgorithm::AES128) } else { return None };
+                if anon { mb.encrypt_to_key_anonymous(Rng::new(5), &subpub).ok()?; } else { mb.encrypt_to_key(Rng::new(5), &subpub).ok()?; }
+                let bytes = mb.to_vec(Rng::new(6)).ok()?;
+                PacketParser::new(&bytes[..]).filter_map(|p| p.ok()).find_map(|p| if let Packet::PublicKeyEncryptedSessionKey(e) = p { Some(e) } else { None })
+            }).ok().flatten().or_else(|| guarded(|| -> Option<P> {
+                let mut mb = MessageBuilder::from_bytes("", b"x".to_vec()).seipd_v2(Rng::new(4), SymmetricKeyAlgorithm::AES128, pgp::crypto::aead::AeadAlgorithm::Ocb, pgp::crypto::aead::ChunkSize::C64B);
+                if anon { mb.encrypt_to_key_anonymous(Rng::new(5), &subpub).ok()?; } else { mb.encrypt_to_key(Rng::new(5), &subpub).ok()?; }
+                let bytes = mb.to_vec(Rng::new(6)).ok()?;
+                PacketParser::new(&bytes[..]).filter_map(|p| p.ok()).find_map(|p| if let Packet::PublicKeyEncryptedSessionKey(e) = p { Some(e) } else { None })
+            }).ok().flatten());
+            let Some(esk) = esk else { continue; };
+            let target = match &esk { P::V3 { id, .. } => format!("k:{}", hx(id.as_ref())), P::V6 { fingerprint: Some(f), .. } => format!("f:{}", hx(f.as_bytes())), P::V6 { fingerprint: None, .. } => "f:_".to_string(), _ => "o".to_string() };
+            for (who, kid, fp, is_recipient) in [("recipient", subpub.legacy_key_id(), subpub.fingerprint(), true), ("other", other.legacy_key_id(), other.fingerprint(), false), ("primary", a.primary_key.legacy_key_id(), a.primary_key.fingerprint(), false)] {
+                let m = match who { "recipient" => esk.match_identity(&subpub), "other" => esk.match_identity(&other.public_key()), _ => esk.match_identity(&apub) };
+                // the packet the library wrote for the recipient names the recipient; named packets name nobody else
+                let pred = if is_recipient { m } else { anon == m };
+                self.out.case("eskmatch", &[target.clone(), hx(kid.as_ref()), hx(fp.as_bytes())], &["esk-lookup".into(), cls.into(), target.clone(), who.into()], &(m as u8).to_string(), Some(pred),
+                    &format!("{cls}-esk-{}-{}", if anon { "wildcard" } else { "named" }, who));
+            }
+        }
+    }
+}
+
 /// raw (tag, body) of every fixed-length packet in a binary blob
 fn split_packets(mut d: &[u8]) -> Vec<(u8, Vec<u8>)> {
     let mut out = Vec::new();
@@ -213,6 +280,8 @@ fn main() {
         cx.issuing_sites(&a4, &b6, "issuing-v4-v6"); cx.issuing_sites(&a6, &b4, "issuing-v6-v4");
         let e = gen_key(KeyVersion::V4, KeyType::ECDSA(ECCCurve::P256), 15);
         cx.issuing_sites(&e, &b4, "issuing-ecdsa-v4");
+        // the lookup side: which key a signature / a PKESK names
+        cx.lookup(&a4, &b4, "v4-v4"); cx.lookup(&a6, &b6, "v6-v6"); cx.lookup(&a4, &b6, "v4-v6"); cx.lookup(&a6, &b4, "v6-v4");
     }
     // signing subkeys: the back signature (primary key binding, made by the subkey) embedded in the subkey binding
     // names the subkey as its issuer; the binding itself names the primary
